@@ -84,6 +84,12 @@ CLAIMED["C11"] = (
     "Trusted: numpy, the recomputation oracles in obligations/sx_c11.py, z3. Everything under check is executed concretely on each path (class E): no part of C11's code is reasoned about symbolically - the property is decided by exhaustive solver-driven enumeration within the bound. Outside: traces longer than 5 columns, multiple.pyx internals. Known finding: degenerate distance in align_multiple.",
     "DESIGN.md §4 C11")
 
+CLAIMED["C04"] = (
+    "solver-driven case split over menu-built structures through the real convert.py / cif.py / bcif.py / compress.py (write -> text/binary/compressed -> read -> field-wise comparison); the model number of get_structure is a z3 variable explored over -5..5 and None against a row-filter model",
+    "Bounded model checking (thin S + E). Model/altloc selection: for files with 1..3 models every model number in -5..5 and None and every altloc policy returns exactly the matching rows, 0 and out-of-range numbers are rejected. Round trip: 2 residues x 3 atoms with residue types incl. hetero ligands with quote/prime atom names, 4 chain ids (multi-letter, prime), negative and large residue ids, insertion codes, optional fields incl. a free-text field with quotes/blanks, 8 intra- and 5 inter-residue bond types, link partners, 3 box kinds, 1-2 models; CIF, BinaryCIF and compressed BinaryCIF read back equal to the input and to each other.",
+    "Trusted: numpy, the synthetic CCD fixture, z3 as case-split driver (the conversion layer is numpy-vectorised: apart from the model arithmetic everything is executed concretely per path, class E). Assumptions: adjacent canonical residues carry exactly the implicit peptide bond; inter-residue bond types limited to what struct_conn expresses. Outside: real CCD content, > 6 atoms, float coordinates beyond exactly representable menu values, assemblies.",
+    "DESIGN.md §4 C04")
+
 NOT_APPLICABLE = {
     "C15": "float results of numpy/LAPACK (linalg solves, trigonometry, argmin over float images): no integer/string logic in front of the C boundary that a solver could reason about; an abstraction over the reals would verify a model of numpy, not the code (DESIGN §6)",
     "C16": "optimality/properness come from np.linalg.svd/det (LAPACK behind FFI) on float32 data; no encodable source; z3 terms cannot pass astype(float32) (DESIGN §6)",
